@@ -2,8 +2,13 @@
    nat, positive, N, Z stay the inductive types. Run from the output directory:
    cd _build/extract && coqc -Q /verif/coq QV /verif/coq/Extract/Extract.v *)
 From Coq Require Import Extraction ExtrOcamlBasic.
-From QV Require Import Base.Bytes Struct.NumRange Struct.RangeSpec Struct.PageOps.
+From QV Require Import Base.Bytes Struct.NumRange Struct.RangeSpec Struct.PageOps Filters.Filters Filters.FilterSpec Filters.LzwSpec.
 Extraction Language OCaml.
 Extraction "qvmodel.ml"
   NumRange.parse_numrange RangeSpec.range_spec
-  PageOps.collate PageOps.collate_spec PageOps.split_chunks PageOps.rotate_angle.
+  PageOps.collate PageOps.collate_spec PageOps.split_chunks PageOps.rotate_angle
+  Filters.ahx_run Filters.a85_run Filters.rle_run Filters.rld_run Filters.png_make Filters.png_run
+  Filters.tiff_make Filters.tiff_run Filters.b64_decode Filters.b64_encode_run Filters.lzw_run Filters.rc4
+  FilterSpec.ref_ahx_encode FilterSpec.ref_a85_encode FilterSpec.ref_rl_decode FilterSpec.ref_rl_encode
+  FilterSpec.ref_rl_encode_runs FilterSpec.ref_png_encode FilterSpec.ref_png_decode_up FilterSpec.ref_tiff8_encode_row
+  FilterSpec.ref_b64_decode LzwSpec.ref_lzw_encode.
